@@ -1,7 +1,159 @@
+(* C16 - task_timeout fires iff the block outlives its deadline, never after exit.
+   Model-level content over Sched/Model.v / Sched/Corr.v.  Proofs: Sched/TimeoutProofs.v
+   (+ Sched/FrameFacts.v for "a block never becomes active again").
+
+   Vocabulary (Model.v):
+     OTimeoutEnter d / OTimeoutExit b r   __aenter__ / __aexit__ of `async with task_timeout(d)`;
+                        r is how the body ended; blocks s = the table of timeout blocks
+                        (btask: the task inside, bactive: is_active, btimer: its call_later handle)
+     ETimeoutInt b      the private TimeoutInterrupt instance (token) of block b
+     interruptor fuel s b i   the interruptor task's 3-attempt loop from attempt i
+     InIntr b i ph      the interruptor suspended in attempt i (resumed by the loop later)
+     exit_reply b r     what leaves block b when its body ended with r
+     exit_state s b     s with block b inactive and its timer handle cancelled *)
 From Coq Require Import QArith.
-From Asynkit Require Import Base.Prelude Sched.Model.
-(* placeholder: the C16 theorems land in Sched/TimeoutProofs.v *)
-Theorem C16_none_adds_nothing :
-  forall t s, lib_call t (OTimeoutEnter None) s = (s, LDone (RVal (-1))).
-Proof. reflexivity. Qed.
-Print Assumptions C16_none_adds_nothing.
+From RecordUpdate Require Import RecordUpdate.
+From Asynkit Require Import Base.Prelude Sched.Model Sched.PartitionProofs Sched.ThrowProofs
+     Sched.FrameFacts Sched.Corr Sched.TimeoutProofs.
+Import RecordSetNotations.
+Open Scope nat_scope.
+
+(* task_timeout(None) never interferes: entering changes nothing, and the denotation of the
+   block is the body followed by the rest - no block, no timer, no exit call *)
+Theorem C16_none :
+  (forall t s, lib_call t (OTimeoutEnter None) s = (s, LDone (RVal (-1)))) /\
+  (forall t body rest env cur k s,
+     exec t (denote (STimeout None body rest) env cur k) s =
+     exec t (denote body env cur
+                    (fun env c0 => match c0 with CNormal => denote rest env cur k | _ => k env c0 end)) s).
+Proof. split; [exact timeout_none_enter|exact timeout_none_denote]. Qed.
+Print Assumptions C16_none.
+
+(* leaving the block: is_active := False, the timer handle is cancelled, nothing else changes *)
+Theorem C16_exit_deactivates :
+  forall t b r s,
+  let s' := cancel_handle (setb s b (mkBlk (btask (getb s b)) false (btimer (getb s b))))
+                          (btimer (getb s b)) in
+  let h := btimer (getb s b) in
+  lib_call t (OTimeoutExit b r) s = (s', LDone (exit_reply b r)) /\
+  bactive (getb s' b) = false /\
+  btask (getb s' b) = btask (getb s b) /\ btimer (getb s' b) = btimer (getb s b) /\
+  (forall b', b' <> b -> getb s' b' = getb s b') /\
+  length (blocks s') = length (blocks s) /\
+  (h < length (handles s) -> geth s' h = mkH (hcb (geth s h)) true) /\
+  (forall h', h' <> h -> geth s' h' = geth s h') /\
+  length (handles s') = length (handles s) /\
+  ready s' = ready s /\ futs s' = futs s /\ tasks s' = tasks s /\ locks s' = locks s /\
+  conds s' = conds s /\ events s' = events s /\ timers s' = timers s /\ now s' = now s /\
+  current s' = current s /\ log s' = log s /\ errors s' = errors s.
+Proof. intros t b r s. split; [reflexivity|]. exact (exit_state_facts s b). Qed.
+Print Assumptions C16_exit_deactivates.
+
+(* the level: a block converts exactly its own token into TimeoutError; tokens of other (outer)
+   blocks, results and every other exception pass through unchanged *)
+Theorem C16_level :
+  forall b,
+  exit_reply b (RExc (ETimeoutInt b)) = RExc ETimeout /\
+  (forall b', b' <> b -> exit_reply b (RExc (ETimeoutInt b')) = RExc (ETimeoutInt b')) /\
+  (forall v, exit_reply b (RVal v) = RVal v) /\
+  (forall e, (forall b', e <> ETimeoutInt b') -> exit_reply b (RExc e) = RExc e).
+Proof. exact exit_reply_level. Qed.
+Print Assumptions C16_level.
+
+(* no late interrupt.  (1) the interruptor throws block b's token only under `is_active`:
+   attempt i of an inactive block does nothing and goes on, of an active one it is exactly
+   task_interrupt(btask, token);  (2) an inactive block stays inactive over every sequence of
+   environment actions and every user program (and inside steps);  (3) hence after the exit of
+   b - whatever happens next - every run of b's interruptor, from its start or resumed from any
+   of its suspensions, returns without touching the state;  (4) the cancelled timer handle is
+   skipped by the loop *)
+Theorem C16_no_late_interrupt :
+  (forall fuel s b i, i < 3 ->
+     interruptor (S fuel) s b i =
+     if bactive (getb s b)
+     then (let '(s1, r) := task_interrupt_start s (btask (getb s b)) (ETimeoutInt b) in
+           match r with
+           | LSusp y frs => (s1, LSusp y (frs ++ [InIntr b i 0]))
+           | LDone (RExc (ERuntime k)) =>
+               if Nat.eqb i 2 then (s1, LDone (RExc (ERuntime k)))
+               else (s1, LSusp YNone [InSleep0; InIntr b i 1])
+           | LDone (RExc e) => (s1, LDone (RExc e))
+           | LDone (RVal _) => interruptor fuel s1 b (S i)
+           end)
+     else (s, LDone (RVal 0))) /\
+  (forall fuel s b i, bactive (getb s b) = false -> interruptor fuel s b i = (s, LDone (RVal 0))) /\
+  (forall s b acts, b < length (blocks s) -> bactive (getb s b) = false ->
+     bactive (getb (fold_left do_action acts s) b) = false) /\
+  (forall t c s s' o b, exec t c s = (s', o) -> b < length (blocks s) -> bactive (getb s b) = false ->
+     bactive (getb s' b) = false) /\
+  (forall t b r s acts, b < length (blocks s) ->
+     let s1 := fst (lib_call t (OTimeoutExit b r) s) in
+     let s2 := fold_left do_action acts s1 in
+     bactive (getb s2 b) = false /\
+     (forall fuel i, interruptor fuel s2 b i = (s2, LDone (RVal 0))) /\
+     (forall t', lib_call t' (OInterruptor b) s2 = (s2, LDone (RVal 0))) /\
+     (forall t' i ph v, frame_resume t' (InIntr b i ph) (RVal v) s2 = (s2, LDone (RVal 0)))) /\
+  (forall s h r, rq_popleft (ready s) = Some (h, r) -> hcancelled (geth s h) = true ->
+     run_one s = s <| ready := r |>).
+Proof.
+  split; [exact interruptor_throws_only_if_active|]. split; [exact interruptor_inactive|].
+  split; [exact inactive_forever|]. split; [exact inactive_inside_step|].
+  split; [exact no_late_interrupt|exact cancelled_handle_skipped].
+Qed.
+Print Assumptions C16_no_late_interrupt.
+
+(* it fires (list ready queue): block b active, the interruptor's attempt i, and task_throw
+   accepts the token for b's task (e.g. a Python task blocked on a pending future - last
+   clause; see C15_throw_effect for what an accepted throw changes).  Then the interruptor has
+   thrown ETimeoutInt b, moved the target's new handle to position 0 and is itself asleep; the
+   very next handle the loop runs is the target's step carrying the token (delivered at its
+   suspension point by C15_delivered; converted by the block's exit by C16_level) *)
+Theorem C16_fires :
+  (forall fuel s b i l s1 v,
+     ready s = RList l -> bactive (getb s b) = true -> i < 3 ->
+     let t := btask (getb s b) in
+     let hn := length (handles s) in
+     task_throw s t (ETimeoutInt b) = (s1, RVal v) ->
+     exists l',
+       ready s1 = RList (l' ++ [hn]) /\
+       geth s1 hn = mkH (HStep t (Some (ETimeoutInt b))) false /\
+       interruptor (S fuel) s b i =
+         (s1 <| ready := RList (hn :: l') |>, LSusp YNone [InSleep0; InIntr b i 0]) /\
+       run_one (s1 <| ready := RList (hn :: l') |>) =
+         step_task t (Some (ETimeoutInt b)) (s1 <| ready := RList l' |>)) /\
+  (forall s t e f,
+     tdone s t = false -> tkind_ (gett s t) = KPy -> twaiter (gett s t) = Some f -> fdone s f = false ->
+     task_throw s t e = (throw_go (remove_done_callback s f (CbWakeup t)) t e, RVal 0)).
+Proof. split; [exact interruptor_fires|exact throw_accepts_blocked]. Qed.
+Print Assumptions C16_fires.
+
+(* concrete runs (scripts of Sched/Corr.v, SPy tasks, virtual clock):
+   - nested timeouts 1 tick around 5 ticks around sleep(10): the inner level sees the outer
+     token (903) unchanged, TimeoutError (904) appears at the outer level only, both blocks end
+     inactive with cancelled timers, the sleep future is not cancelled;
+   - sleep(1) under task_timeout(1), timers tie: the block is still running at its deadline and
+     is interrupted (904);
+   - the deadline passes just as the task leaves the block (trigger fired, interruptor spawned,
+     task runs first): the block completes normally (7, 8), the interruptor ends quietly *)
+Theorem C16_examples :
+  (let s := run_acts ex_nested_acts in
+   events_of s = [903; 904; 4]%Z /\ map bactive (blocks s) = [false; false] /\
+   hcancelled (geth s (btimer (getb s 0))) = true /\ hcancelled (geth s (btimer (getb s 1))) = true /\
+   fstate_ (getf s (tfut (gett s 0))) = FResult 0 /\ fstate_ (getf s 1) = FPending /\
+   rq_items (ready s) = [] /\ errors s = []) /\
+  (let s := run_acts [XSpawn SPy ex_tie_running; XBegin; XStep; XAdvance 1%Q; XBegin;
+                      XStep; XStep; XStep; XStep; XStep; XStep] in
+   events_of s = [904; 8]%Z /\ map bactive (blocks s) = [false] /\
+   rq_items (ready s) = [] /\ errors s = []) /\
+  (let s := run_acts ex_tie_leaving_acts in
+   events_of s = [7; 8]%Z /\ map bactive (blocks s) = [false] /\ length (tasks s) = 2 /\
+   map fstate_ (futs s) = [FResult 5; FResult 0; FResult 0] /\
+   rq_items (ready s) = [] /\ errors s = [] /\
+   (let s9 := run_acts (firstn 9 ex_tie_leaving_acts) in
+    map bactive (blocks s9) = [false] /\ rq_items (ready s9) = [3] /\
+    geth s9 3 = mkH (HStep 1 None) false)).
+Proof.
+  split; [exact ex_nested_outer_expires|]. split; [exact ex_tie_block_still_running|].
+  exact ex_tie_block_leaving.
+Qed.
+Print Assumptions C16_examples.
